@@ -905,8 +905,14 @@ func Run(horizon int, body func()) *Exec {
 	return s.ex
 }
 
+// Trace, when non-nil, receives one entry per scheduling step ("T<id>:<op>").
+var Trace *[]string
+
 func (s *sched) step(t *thread) {
 	o := t.pend
+	if Trace != nil {
+		*Trace = append(*Trace, fmt.Sprintf("T%d:%s", t.id, o.name))
+	}
 	if o.apply != nil {
 		func() {
 			defer func() {
@@ -1010,4 +1016,39 @@ func CurrentThread() int {
 		return -1
 	}
 	return S.cur.id
+}
+
+// Unfinished returns the number of threads other than the caller that have not finished.
+func Unfinished() int {
+	s := S
+	if s == nil {
+		return 0
+	}
+	n := 0
+	for _, t := range s.threads {
+		if !t.fin && t != s.cur && !(t.pend != nil && t.pend.done && t.pend.name == "Send") {
+			// a thread whose final send has already been taken by a receiver only has to exit
+			n++
+		}
+	}
+	return n
+}
+
+// UnfinishedDesc describes the unfinished threads other than the caller.
+func UnfinishedDesc() string {
+	s := S
+	if s == nil {
+		return ""
+	}
+	var parts []string
+	for _, t := range s.threads {
+		if !t.fin && t != s.cur && !(t.pend != nil && t.pend.done && t.pend.name == "Send") {
+			n := "running"
+			if t.pend != nil {
+				n = t.pend.name
+			}
+			parts = append(parts, fmt.Sprintf("T%d@%s", t.id, n))
+		}
+	}
+	return strings.Join(parts, ",")
 }
